@@ -102,11 +102,23 @@ Inductive minstr :=
 | MLoop (body : list minstr)           (* LOOP { body } *)
 | MLambda (a r : ty) (body : list minstr)  (* LAMBDA a r { body } *)
 | MExec
-| MPatch (f : pfield) (v : option Z).  (* PATCH AMOUNT 5 / PATCH AMOUNT *)
+| MPatch (f : pfield) (v : option Z)   (* PATCH AMOUNT 5 / PATCH AMOUNT *)
+| MSeq (body : list minstr)            (* { body } as an instruction (APPLY builds it) *)
+| MApply
+| MCons
+| MIter (body : list minstr)           (* ITER { body } over a list *)
+| MIfCons (bt bf : list minstr)        (* IF_CONS { bt } { bf } *)
+| MMap (body : list minstr).           (* MAP { body } over a list *)
 
 (* ------------------------------------------------------------------------------------------ *)
 (* values; [H] is what a big_map carries                                                      *)
 (* ------------------------------------------------------------------------------------------ *)
+
+(* elements of (non-empty) list values: lists of atomic values only *)
+Inductive atom := AUnit | AInt (z : Z) | ANat (z : Z) | AStr (s : bytes) | AMutez (z : Z) | ABool (b : bool).
+
+Definition atom_ty (a : atom) : ty :=
+  match a with AUnit => TUnit | AInt _ => TInt | ANat _ => TNat | AStr _ => TString | AMutez _ => TMutez | ABool _ => TBool end.
 
 Inductive gval (H : Type) : Type :=
 | GUnit
@@ -120,8 +132,9 @@ Inductive gval (H : Type) : Type :=
 | GNil (t : ty)
 | GBig (k v : ty) (h : H)
 | GBool (b : bool)
-| GLam (a r : ty) (body : list minstr).   (* LambdaType value: the code *)
-Arguments GBool {H} b. Arguments GLam {H} a r body.
+| GLam (a r : ty) (body : list minstr)    (* LambdaType value: the code *)
+| GList (t : ty) (l : list atom).         (* a non-empty list of atoms ([GNil] is the empty list) *)
+Arguments GBool {H} b. Arguments GLam {H} a r body. Arguments GList {H} t l.
 Arguments GUnit {H}. Arguments GInt {H} z. Arguments GNat {H} z. Arguments GStr {H} s.
 Arguments GMutez {H} z. Arguments GPair {H} a b. Arguments GNone {H} t. Arguments GSome {H} a.
 Arguments GNil {H} t. Arguments GBig {H} k v h.
@@ -139,6 +152,7 @@ Fixpoint gmap {A B} (f : A -> B) (v : gval A) : gval B :=
   | GBig k v h => GBig k v (f h)
   | GBool b => GBool b
   | GLam a r body => GLam a r body
+  | GList t l => GList t l
   end.
 
 Definition inj {H} (v : sval) : gval H := gmap (fun e : Empty_set => match e with end) v.
@@ -154,6 +168,7 @@ Fixpoint proj {H} (v : gval H) : option sval :=
   | GBig _ _ _ => None
   | GBool b => Some (GBool b)
   | GLam a r body => Some (GLam a r body)
+  | GList t l => Some (GList t l)
   end.
 
 Fixpoint type_of {H} (v : gval H) : ty :=
@@ -166,7 +181,23 @@ Fixpoint type_of {H} (v : gval H) : ty :=
   | GBig k v _ => TBigMap k v
   | GBool _ => TBool
   | GLam a r _ => TLambda a r
+  | GList t _ => TList t
   end.
+
+Definition inj_atom {H} (a : atom) : gval H :=
+  match a with
+  | AUnit => GUnit | AInt z => GInt z | ANat z => GNat z | AStr s => GStr s | AMutez z => GMutez z | ABool b => GBool b
+  end.
+
+Definition proj_atom {H} (v : gval H) : option atom :=
+  match v with
+  | GUnit => Some AUnit | GInt z => Some (AInt z) | GNat z => Some (ANat z) | GStr s => Some (AStr s)
+  | GMutez z => Some (AMutez z) | GBool b => Some (ABool b)
+  | _ => None
+  end.
+
+(* the list with elements [l]: [GNil] when empty *)
+Definition mklist {H} (t : ty) (l : list atom) : gval H := match l with [] => GNil t | _ => GList t l end.
 
 Fixpoint handles_of {H} (v : gval H) : list H :=
   match v with
@@ -356,6 +387,21 @@ Fixpoint parse_s (t : ty) (n : node) {struct t} : option sval :=
         match parse_s a x with Some u => Some (GSome u) | None => None end
       else None
   | TList a, NSeq [] => Some (GNil a)
+  | TList a, NSeq l =>
+      (* atoms only *)
+      match a with
+      | TUnit | TInt | TNat | TString | TMutez | TBool =>
+          (fix go (l : list node) (acc : list atom) : option sval :=
+             match l with
+             | [] => Some (GList a (rev acc))
+             | x :: r =>
+                 match parse_s a x with
+                 | Some v => match proj_atom v with Some at' => go r (at' :: acc) | None => None end
+                 | None => None
+                 end
+             end) l []
+      | _ => None
+      end
   | _, _ => None
   end.
 
@@ -409,6 +455,31 @@ Fixpoint parse_v (t : ty) (n : node) {struct t} : option (gval rawbig) :=
   | _, _ => match parse_s t n with Some u => Some (inj u) | None => None end
   end.
 
+ (* <value>.to_literal(): what APPLY captures in the PUSH it prepends; a big_map shows as its id, which PUSH then
+   refuses.  Lambdas inside a captured value are not modelled (placeholder). *)
+Definition lit_atom (a : atom) : node :=
+  match a with
+  | AUnit => NPrim tag_Unit [] []
+  | AInt z | ANat z | AMutez z => NInt z
+  | AStr s => NStr s
+  | ABool b => NPrim (if b then tag_True else tag_False) [] []
+  end.
+
+Fixpoint lit_of (v : value) : node :=
+  match v with
+  | GUnit => NPrim tag_Unit [] []
+  | GInt z | GNat z | GMutez z => NInt z
+  | GStr s => NStr s
+  | GPair a b => NPrim tag_Pair [lit_of a; lit_of b] []
+  | GNone _ => NPrim tag_None [] []
+  | GSome a => NPrim tag_Some [lit_of a] []
+  | GNil _ => NSeq []
+  | GBig _ _ h => NInt (h_ptr h)
+  | GBool b => NPrim (if b then tag_True else tag_False) [] []
+  | GLam _ _ _ => NSeq []
+  | GList _ l => NSeq (map lit_atom l)
+  end.
+
 (* ------------------------------------------------------------------------------------------ *)
 (* context primitives                                                                         *)
 (* ------------------------------------------------------------------------------------------ *)
@@ -435,7 +506,7 @@ Fixpoint attach (cp : bool) (cur : nat) (v : gval rawbig) (c : ctxrec) : value *
   match v with
   | GUnit => (GUnit, c) | GInt z => (GInt z, c) | GNat z => (GNat z, c) | GStr s => (GStr s, c)
   | GMutez z => (GMutez z, c) | GNone t => (GNone t, c) | GNil t => (GNil t, c)
-  | GBool b => (GBool b, c) | GLam a r body => (GLam a r body, c)
+  | GBool b => (GBool b, c) | GLam a r body => (GLam a r body, c) | GList t l => (GList t l, c)
   | GPair a b =>
       let '(a', c1) := attach cp cur a c in
       let '(b', c2) := attach cp cur b c1 in
@@ -693,7 +764,31 @@ Definition mstep (i : minstr) (s : session) : option session :=
   | MFailwith => None
   | MLambda a r body => Some (with_stack s (GLam a r body :: st))
   | MPatch f v => Some (with_ctx s (patch (s_ctx s) f v))
-  | MDip _ | MIfNone _ _ | MDipN _ _ | MIf _ _ | MLoop _ | MExec => None   (* see [mexec] *)
+  | MApply =>
+      (* APPLY: the new lambda's code is { PUSH <captured type> <captured literal> ; PAIR ; { old code } } *)
+      match st with
+      | cap :: GLam (TPair lt rt) r body :: rest =>
+          if ty_eqb (type_of cap) lt then
+            Some (with_stack s (GLam rt r [MPush lt (lit_of cap); MPair; MSeq body] :: rest))
+          else None
+      | _ => None
+      end
+  | MCons =>
+      (* CONS: the element must have the list's element type (model: and be an atom) *)
+      match st with
+      | x :: GNil t :: rest =>
+          match proj_atom x with
+          | Some a => if ty_eqb (type_of x) t then Some (with_stack s (GList t [a] :: rest)) else None
+          | None => None
+          end
+      | x :: GList t l :: rest =>
+          match proj_atom x with
+          | Some a => if ty_eqb (type_of x) t then Some (with_stack s (GList t (a :: l) :: rest)) else None
+          | None => None
+          end
+      | _ => None
+      end
+  | MDip _ | MIfNone _ _ | MDipN _ _ | MIf _ _ | MLoop _ | MExec | MSeq _ | MIter _ | MIfCons _ _ | MMap _ => None   (* see [mexec] *)
   end.
 
 (* outcome of running code: finished, or raised leaving the contexts as they were at that moment.
@@ -716,6 +811,47 @@ End RunList.
    for the case that the body finds its operands on the visible part of the stack — pytezos' protect()
    only checks the total length, so `DIP { DIP { PUSH .. } }` on a one-element stack succeeds there
    (Tezos rejects it) while the model fails: outside the modelled domain. *)
+Section IterList.
+  Variable ex : minstr -> session -> outcome session.
+  Variable body : list minstr.
+  (* ITER: push each element in turn and run the body *)
+  Fixpoint iterl (l : list atom) (s : session) : outcome session :=
+    match l with
+    | [] => Done s
+    | x :: r =>
+        match runl ex body (with_stack s (inj_atom x :: s_stack s)) with
+        | Done s' => iterl r s'
+        | Failed b f => Failed b f
+        end
+    end.
+  (* MAP: push each element, run the body, collect what it leaves on top (model: an atom); at the end
+     ListType.from_items demands one element type *)
+  Fixpoint mapl (l : list atom) (acc : list atom) (s : session) : outcome session :=
+    match l with
+    | [] =>
+        match acc with
+        | [] => Done s
+        | a0 :: _ =>
+            if forallb (fun a => ty_eqb (atom_ty a) (atom_ty a0)) acc
+            then Done (with_stack s (GList (atom_ty a0) acc :: s_stack s))
+            else Failed false s
+        end
+    | x :: r =>
+        match runl ex body (with_stack s (inj_atom x :: s_stack s)) with
+        | Done s' =>
+            match s_stack s' with
+            | res :: st' =>
+                match proj_atom res with
+                | Some a => mapl r (acc ++ [a]) (with_stack s' st')
+                | None => Failed false s'
+                end
+            | [] => Failed false s'
+            end
+        | Failed b f => Failed b f
+        end
+    end.
+End IterList.
+
 Fixpoint mexec (fuel : nat) : minstr -> session -> outcome session :=
   match fuel with
   | O => fun _ s => Failed true s
@@ -742,6 +878,25 @@ Fixpoint mexec (fuel : nat) : minstr -> session -> outcome session :=
             match s_stack s with
             | GNone _ :: r => runl me bt (with_stack s r)
             | GSome a :: r => runl me bf (with_stack s (a :: r))
+            | _ => Failed false s
+            end
+        | MSeq body => runl me body s
+        | MIter body =>
+            match s_stack s with
+            | GNil _ :: r => Done (with_stack s r)
+            | GList _ l :: r => iterl me body l (with_stack s r)
+            | _ => Failed false s
+            end
+        | MMap body =>
+            match s_stack s with
+            | GNil t :: r => Done s          (* MAP over the empty list leaves the list as it is *)
+            | GList _ l :: r => mapl me body l [] (with_stack s r)
+            | _ => Failed false s
+            end
+        | MIfCons bt bf =>
+            match s_stack s with
+            | GList t (x :: l) :: r => runl me bt (with_stack s (inj_atom x :: mklist t l :: r))
+            | GNil _ :: r => runl me bf (with_stack s r)
             | _ => Failed false s
             end
         | MIf bt bf =>
@@ -895,8 +1050,8 @@ Fixpoint minstr_valid (m : minstr) : bool :=
   | MPush t _ | MNone t | MNil t => valid_ty t
   | MEmptyBigMap k v => valid_ty k && valid_ty v
   | MDip b => forallb minstr_valid b
-  | MIfNone bt bf | MIf bt bf => forallb minstr_valid bt && forallb minstr_valid bf
-  | MDipN _ b | MLoop b => forallb minstr_valid b
+  | MIfNone bt bf | MIf bt bf | MIfCons bt bf => forallb minstr_valid bt && forallb minstr_valid bf
+  | MDipN _ b | MLoop b | MSeq b | MIter b | MMap b => forallb minstr_valid b
   | MLambda a r b => valid_ty a && valid_ty r && forallb minstr_valid b
   | _ => true
   end.
@@ -985,7 +1140,9 @@ Fixpoint minstr_eqb (a b : minstr) {struct a} : bool :=
   | MDip b1, MDip b2 => go b1 b2
   | MIfNone t1 f1, MIfNone t2 f2 | MIf t1 f1, MIf t2 f2 => go t1 t2 && go f1 f2
   | MDipN n1 b1, MDipN n2 b2 => Nat.eqb n1 n2 && go b1 b2
-  | MLoop b1, MLoop b2 => go b1 b2
+  | MLoop b1, MLoop b2 | MSeq b1, MSeq b2 | MIter b1, MIter b2 | MMap b1, MMap b2 => go b1 b2
+  | MApply, MApply | MCons, MCons => true
+  | MIfCons t1 f1, MIfCons t2 f2 => go t1 t2 && go f1 f2
   | MLambda a1 r1 b1, MLambda a2 r2 b2 => ty_eqb a1 a2 && ty_eqb r1 r2 && go b1 b2
   | MExec, MExec => true
   | MPatch PAmount v1, MPatch PAmount v2 | MPatch PBalance v1, MPatch PBalance v2 | MPatch PNow v1, MPatch PNow v2 =>
@@ -1035,6 +1192,7 @@ Fixpoint render_g {H} (fl : list minstr -> node) (f : H -> node) (v : gval H) : 
   | GBig _ _ h => f h
   | GBool b => NPrim (if b then tag_True else tag_False) [] []
   | GLam _ _ body => fl body
+  | GList _ l => NSeq (map lit_atom l)
   end.
 
 Definition render_s (fl : list minstr -> node) (v : sval) : node := render_g fl (fun e : Empty_set => match e with end) v.
